@@ -141,8 +141,7 @@ func G1HashToPoint(m []byte) *bn256.G1 {
 // yParity calculates whether the provided Y coordinate is an even or odd
 // number. Returns 0x01 if Y is an even number and 0x00 if it's odd.
 func yParity(y *big.Int) byte {
-	arr := y.Bytes()
-	return arr[len(arr)-1] & 1
+	return byte(y.Bit(0))
 }
 
 // Compress compresses point by using X value and the parity bit of Y
